@@ -3,6 +3,7 @@ package main
 import (
 	"bufio"
 	"context"
+	"encoding/base64"
 	"encoding/json"
 	"flag"
 	"fmt"
@@ -12,16 +13,21 @@ import (
 	"os"
 	"strings"
 	"sync"
+	"sync/atomic"
 	"time"
 
 	f_note "github.com/transparency-dev/formats/note"
+	"github.com/transparency-dev/merkle/rfc6962"
+	slstest "github.com/transparency-dev/serverless-log/testdata"
 	"github.com/transparency-dev/witness/internal/client"
 	"github.com/transparency-dev/witness/internal/config"
 	"github.com/transparency-dev/witness/internal/feeder"
 	"github.com/transparency-dev/witness/internal/feeder/pixelbt"
 	"github.com/transparency-dev/witness/internal/feeder/rekor"
+	"github.com/transparency-dev/witness/internal/feeder/serverless"
 	"github.com/transparency-dev/witness/internal/feeder/sumdb"
 	"github.com/transparency-dev/witness/internal/feeder/tiles"
+	"github.com/transparency-dev/witness/internal/witness"
 	"github.com/transparency-dev/witness/verifharness/internal/ref"
 	"github.com/transparency-dev/witness/verifharness/internal/stublog"
 	"github.com/transparency-dev/witness/verifharness/internal/world"
@@ -102,7 +108,8 @@ func tileMain(args []string) error {
 	samples := fs.Int("samples", 200, "sampled pairs up to 2^20")
 	seed := fs.Int64("seed", 1, "seed")
 	workers := fs.Int("workers", 8, "workers")
-	kind := fs.String("feeder", "sumdb", "which feeder builds the proofs: sumdb | tiles | pixel | rekor")
+	kind := fs.String("feeder", "sumdb", "which feeder builds the proofs: sumdb | tiles | pixel | rekor | serverless (the serverless-log module's own test log, sizes 1..15)")
+	fronts := fs.String("fronts", "plain,gzip,redirect,prefix", "what sits between the feeder and the log, per worker")
 	nchains := fs.Int("chains", 0, "growth chains followed by ONE long-running feeder each (fixed boundary chains plus this many random ones)")
 	_ = fs.Parse(args)
 	tw, err := newTraceWriter(*out)
@@ -194,7 +201,21 @@ func tileMain(args []string) error {
 		if *kind == "pixel" {
 			chains = [][]uint64{{100, 300, 500, 700}, {1, 255, 256, 257, 511, 512, 513, 690}, {256, 512, 600}, {5, 6, 7, 8, 9, 300, 301}}
 		}
-		for j := 0; j < *nchains; j++ {
+		if *kind == "serverless" {
+			chains = nil
+		}
+		for j := 0; j < *nchains && *kind == "serverless"; j++ {
+			var c []uint64
+			cur := uint64(1 + rng.Intn(4))
+			for cur <= 15 {
+				c = append(c, cur)
+				cur += uint64(1 + rng.Intn(6))
+			}
+			if len(c) >= 2 {
+				chains = append(chains, c)
+			}
+		}
+		for j := 0; j < *nchains && *kind != "serverless"; j++ {
 			n := 3 + rng.Intn(5)
 			lim := int64(1 << 18)
 			if *kind == "pixel" {
@@ -238,6 +259,7 @@ func tileMain(args []string) error {
 			l := base.Logs["l1"]
 			sl := stublog.New(l.Origin, l.Key, l.Trees)
 			var h http.Handler
+			slsPub := &atomic.Uint64{} // the size whose checkpoint this worker's serverless log currently publishes
 			suffix := "/"
 			feed := sumdb.FeedLog
 			switch *kind {
@@ -249,13 +271,39 @@ func tileMain(args []string) error {
 				h, feed = sl.PixelHandler(), pixelbt.FeedLog
 			case "rekor":
 				h, feed, suffix = sl.RekorHandler("1234"), rekor.FeedLog, "/?treeID=1234"
+			case "serverless":
+				h, feed = slsHandler(slsPub), serverless.FeedLog
+			}
+			publish := func(n uint64) { sl.Publish(0, n) }
+			rootOf := func(n uint64) []byte { r := l.Trees[0].Root(n); return r[:] }
+			mkWitness := func() (*witness.Witness, error) {
+				st, _ := newStore("inmem", "")
+				return newWitness(base, st.p)
+			}
+			origin, vkey := l.Origin, l.Key.VKey()
+			if *kind == "serverless" {
+				origin, vkey = slstest.TestLogOrigin, slstest.TestLogPublicKey
+				publish = func(n uint64) { slsPub.Store(n) }
+				rootOf = slsRoot
+				mkWitness = func() (*witness.Witness, error) {
+					lc, err := config.NewLog(origin, vkey, "http://unused.invalid/")
+					if err != nil {
+						return nil, err
+					}
+					signers, _, err := witnessSigners(base)
+					if err != nil {
+						return nil, err
+					}
+					return newWitnessFromMap(map[string]witness.LogInfo{lc.ID: {SigV: lc.Verifier, Origin: origin, Hasher: rfc6962.DefaultHasher}}, signers)
+				}
 			}
 			// what sits between the feeder and the log differs per worker: nothing, a compressing front end, a redirect to a canonical location
-			front := []string{"plain", "gzip", "redirect", "prefix"}[wk%4]
+			fl := strings.Split(*fronts, ",")
+			front := fl[wk%len(fl)]
 			ts := httptest.NewServer(stublog.FrontEnd(h, front))
 			defer ts.Close()
 			tag += "/" + front
-			lc, err := config.NewLog(l.Origin, l.Key.VKey(), stublog.URLOf(ts.URL, front)+suffix)
+			lc, err := config.NewLog(origin, vkey, stublog.URLOf(ts.URL, front)+suffix)
 			if err != nil {
 				firstErr = err
 				return
@@ -304,13 +352,12 @@ func tileMain(args []string) error {
 			ci := 0
 			for sizes := range chainCh {
 				ci++
-				st, _ := newStore("inmem", "")
-				wit, err := newWitness(base, st.p)
+				wit, err := mkWitness()
 				if err != nil {
 					firstErr = err
 					return
 				}
-				sl.Publish(0, sizes[0])
+				publish(sizes[0])
 				rw := &recWitness{inner: witnessAdapterOf(wit)}
 				ctx, cancel := context.WithCancel(context.Background())
 				done := make(chan error, 1)
@@ -338,12 +385,12 @@ func tileMain(args []string) error {
 					from, to := sizes[j-1], sizes[j]
 					ev := tileEvent{E: "tile.proof", Reqs: []string{}, Run: fmt.Sprintf("%s/%s/chain%d", *kind, tag, ci), From: from, To: to}
 					if okSoFar {
-						sl.Publish(0, to)
+						publish(to)
 						got, old, pf, e := waitFor(to)
-						r1, r2 := l.Trees[0].Root(from), l.Trees[0].Root(to)
+						r1, r2 := rootOf(from), rootOf(to)
 						if got {
 							ev.PfLen = len(pf)
-							ev.RefOK = ref.VerifyConsistency(from, to, pf, r1[:], r2[:])
+							ev.RefOK = ref.VerifyConsistency(from, to, pf, r1, r2)
 							ev.Accepted = e == nil
 							ev.OldOK = old == from
 						}
@@ -382,4 +429,35 @@ func tileMain(args []string) error {
 	}
 	fmt.Printf("TILE events=%d pairs=%d\n", len(events), len(pairs))
 	return nil
+}
+
+// ---- the serverless-log module's own test log (sizes 0..15, every historical checkpoint and partial tile), served over HTTP ----
+
+func slsHandler(pub *atomic.Uint64) http.Handler {
+	return http.HandlerFunc(func(rw http.ResponseWriter, r *http.Request) {
+		p := strings.TrimPrefix(r.URL.Path, "/")
+		if p == "checkpoint" {
+			p = fmt.Sprintf("checkpoint.%d", pub.Load())
+		}
+		b, err := slstest.Fetcher()(r.Context(), p)
+		if err != nil {
+			http.NotFound(rw, r)
+			return
+		}
+		rw.Write(b)
+	})
+}
+
+// slsRoot is the root hash the test log's historical checkpoint of that size commits to.
+func slsRoot(n uint64) []byte {
+	b, err := slstest.Fetcher()(context.Background(), fmt.Sprintf("checkpoint.%d", n))
+	if err != nil {
+		return nil
+	}
+	lines := strings.Split(string(b), "\n")
+	if len(lines) < 3 {
+		return nil
+	}
+	h, _ := base64.StdEncoding.DecodeString(lines[2])
+	return h
 }
